@@ -18,7 +18,7 @@ sys.path.insert(0, HERE)
 from pyvc import builtins_spec          # noqa: E402
 from pyvc.lint import run_lints          # noqa: E402
 from pyvc.source import Source, REPO     # noqa: E402
-from pyvc.verify import load_registry, verify_function   # noqa: E402
+from pyvc.verify import load_registry, verify_function, discharge_smt2, aggregate   # noqa: E402
 
 EXIT_HELD, EXIT_VIOLATION, EXIT_UNDECIDED, EXIT_ENGINE = 0, 1, 2, 3
 
@@ -52,7 +52,7 @@ def _worker(args):
     try:
         src = _worker.src
         reg = _worker.reg
-        return verify_function(src, reg, q, timeout_ms=timeout_ms, select=lambda l: tagged(l, pid))
+        return verify_function(src, reg, q, timeout_ms=timeout_ms, select=lambda l: tagged(l, pid), emit_smt2=True)
     except Exception as e:   # engine crash
         return {"function": q, "status": "engine-error", "reason": "%s: %s" % (type(e).__name__, e),
                 "trace": traceback.format_exc()[-1500:], "obligations": []}
@@ -68,7 +68,42 @@ def run_vcs(pid, quals, timeout_ms, jobs):
         return []
     ctx = multiprocessing.get_context("fork")
     with ctx.Pool(min(jobs, len(quals)), initializer=_init_worker) as pool:
-        return pool.map(_worker, [(q, pid, timeout_ms) for q in quals], chunksize=1)
+        results = pool.map(_worker, [(q, pid, timeout_ms) for q in quals], chunksize=1)
+    # phase 2: every path-VC of every function is one job of the solver pool
+    jobs_list = [(ri, vi) for ri, r in enumerate(results) for vi, _ in enumerate(r.get("vcs", []))]
+    if jobs_list:
+        with ctx.Pool(min(jobs, len(jobs_list))) as pool:
+            outs = pool.map(discharge_smt2, [(results[ri]["vcs"][vi]["smt2"], timeout_ms) for ri, vi in jobs_list], chunksize=1)
+        for (ri, vi), out in zip(jobs_list, outs):
+            results[ri]["vcs"][vi]["result"] = out
+            results[ri]["vcs"][vi]["smt2"] = None
+    for r in results:
+        if "vcs" in r:
+            r["obligations"] = aggregate(r["function"], r["vcs"], r.get("unreached", ()))
+            del r["vcs"]
+    return results
+
+
+def assumed_contracts(reg, results):
+    """every assumption the discharged obligations rest on: trusted contracts, stated assumptions, definitional clauses"""
+    used = set()
+    for r in results:
+        used.add(r["function"])
+        used.update(r.get("callee_contracts", []))
+    out = []
+    for q in sorted(used):
+        c = reg.contracts.get(q)
+        if c is None:
+            continue
+        if c.trusted:
+            out.append("trusted (not verified): %s - %s" % (q, c.note))
+        if c.abstract:
+            out.append("virtual contract of an abstract method (overrides bounded): %s" % q)
+        for l, e in c.assumes.items():
+            out.append("assumed precondition %s of %s: %s" % (l, q, e))
+        for l, e in list(c.defines_ensures.items()) + list(c.defines_raises.items()):
+            out.append("definitional/assumed clause %s of %s: %s" % (l, q, e[:160]))
+    return sorted(set(out))
 
 
 def load_json(path, default):
@@ -244,8 +279,9 @@ def main(argv=None):
         "undecided": undecided, "refuted": [ob["name"] for ob in refuted],
         "functions_under_contract": funcs,
         "checker_cmd": "./check %s --tier %s" % (pid, a.tier),
-        "trusted_base": sorted(set(meta.get("trusted_base", [])) | {"pyvc symbolic executor and encoding (DESIGN.md 2.2)", "z3 5.1.0 / cvc5 1.0.3"}
-                               | {"%s: %s" % kv for kv in builtins_spec.TRUSTED.items() if any(kv[0].split("/")[0].split(".")[0] in t for t in meta.get("externals", []))}),
+        "trusted_base": list(meta.get("trusted_base", [])) + ["z3 5.1.0 / cvc5 1.0.3 / z3-new"]
+                        + sorted("%s: %s" % kv for kv in builtins_spec.TRUSTED.items() if any(e.split(".")[0] in kv[0] for e in meta.get("externals", []))),
+        "assumed_contracts": assumed_contracts(reg, results),
         "explanation": meta.get("explanation", ""),
         "known_findings": known_lines,
         "source_hashes": {m: h[:16] for m, h in sorted(src.hashes.items()) if any(f["name"].startswith(m + ":") for f in funcs)},
